@@ -13,6 +13,10 @@ Ties:
 * engine "fcache" — Hist/FcacheChunk.v extracted vs. the real fcache.c (white box,
   harness/fcache_drv.c), all policies, small files; the C answers are also judged by the
   extracted spec `slice` (engine "fcache-spec").
+* engine "lkcdsplit" — Hist/LkcdSplit.v extracted vs. the real split_pfn_block of lkcd.c
+  (harness/lkcdsplit_drv.c, blocks built in memory: no multi-gigabyte files), judged by the
+  extracted lookup-preservation spec (engine "lkcdsplit-spec"); the same path end to end:
+  sparse > 4 GiB LKCD dumps in engine "hist".
 * engine "rcache" — Hist/ReadCache.v extracted vs. the real get_cache_buf /
   bury_cache_buffer of src/addrxlat/ctx.c (harness/rcache_drv.c), judged by the
   extracted cache-less read (engine "rcache-spec")."""
@@ -77,6 +81,8 @@ def signature(d, ops, line, i, err=""):
         feats.append("virtual-read")
     if d["fmt"] == "lkcd" and not d.get("sorted", True):
         feats.append("stream-out-of-order")
+    if d["fmt"] == "lkcd-faroff":
+        feats.append("block-split" + ("-tail-not-in-file-order" if d.get("tail_unsorted") else ""))
     op = ops[i].split(":")[0]
     return "hist fmt=%s op=%s history-answer=%s fresh-answer=%s after=%s" % (
         d["fmt"], op, ht[i].split(":")[0], ft[i].split(":")[0], "+".join(feats) or "reads-only")
@@ -100,7 +106,8 @@ def check_hist(run, exe):
     nops = 28 if quick else 45
     work = os.path.join(run.work, "dumps")
     os.makedirs(work, exist_ok=True)
-    fmts = ["diskdump", "diskdump-pt", "elf", "lkcd", "sadump"]
+    fmts = ["diskdump", "diskdump-pt", "elf", "lkcd", "sadump", "diskdump", "lkcd", "elf"]
+    special = ["lkcd-faroff", "diskdump-split-never"]   # a few per run: sparse > 4 GiB LKCD, file sets on the read(2) path
     run.cov["engines"]["hist"] = {"generated": ncases, "ops_per_history": nops, "formats": fmts}
     if run.replay_path:
         rp = core.json.load(open(run.replay_path))["replay"]
@@ -124,6 +131,8 @@ def check_hist(run, exe):
         batch = []
         for j in range(min(shard, ncases - done)):
             fmt = fmts[(done + j) % len(fmts)] if run.rng.random() < 0.8 else run.rng.choice(fmts)
+            if (done + j) % 20 in (3, 13):
+                fmt = special[((done + j) // 10) % 2]
             dump_seed = run.rng.randrange(1 << 48)
             d = make_dump(work, fmt, dump_seed, "d%d" % j)
             ops = histgen.gen_history(run.rng, d, run.rng.randint(4, nops))
@@ -188,8 +197,10 @@ def report(run, exe, d, fmt, dump_seed, ops, line, i, err, shrink=True):
 # answer is judged by the extracted spec.
 # ----------------------------------------------------------------------------
 
-def check_whitebox(run, engine, genmod, exe, ncases, what, label=None):
+def check_whitebox(run, engine, genmod, exe, ncases, what, label=None, model_engine=None, spec_engine=None):
     label = label or engine
+    model_engine = model_engine or engine
+    spec_engine = spec_engine or engine + "-spec"
     cases = []
     corpus = os.path.join(core.VERIF, "corpus", engine + ".txt")
     if os.path.exists(corpus):
@@ -208,10 +219,10 @@ def check_whitebox(run, engine, genmod, exe, ncases, what, label=None):
     def same(c, m, i):
         return (cmp3(c, m, i) is None) if cmp3 else (m == i)
     cf = run.casefile(engine + "-cases.txt", cases)
-    model = core.run_model(engine, cf)
+    model = core.run_model(model_engine, cf)
     impl, crashes = core.run_impl_lines(exe, run.work, cases, env=ENV)
     specin = [genmod.spec_line(c, o) for c, o in zip(cases, impl)]
-    verd = core.run_model(engine + "-spec", run.casefile(engine + "-spec.txt", specin))
+    verd = core.run_model(spec_engine, run.casefile(engine + "-spec.txt", specin))
     if run.replay_path:
         print("model:          " + model[0])
         print("implementation: " + impl[0])
@@ -225,12 +236,12 @@ def check_whitebox(run, engine, genmod, exe, ncases, what, label=None):
     run.count(label + "-spec-ok", sum(1 for v in verd if v == "ok"))
     for i in bad[:3]:
         def one(case):
-            m = core.run_model(engine, run.casefile(engine + "-one.txt", [case]))
+            m = core.run_model(model_engine, run.casefile(engine + "-one.txt", [case]))
             o, cr = core.run_impl_lines(exe, run.work, [case], env=ENV)
-            v = core.run_model(engine + "-spec", run.casefile(engine + "-spec1.txt", [genmod.spec_line(case, o[0])]))
+            v = core.run_model(spec_engine, run.casefile(engine + "-spec1.txt", [genmod.spec_line(case, o[0])]))
             return m[0], o[0], v[0], cr
         case = cases[i]
-        if not hasattr(genmod, "shrink"):
+        if not hasattr(genmod, "shrink") and not getattr(genmod, "ATOMIC_CASES", False) and engine != "lkcdsplit":
             hdr, sep, body = case.partition(" | ") if " | " in case else ("", "", case)
 
             def mk(ops):
@@ -280,14 +291,15 @@ def check(run):
         check_hist(run, exe)
     if not ml_ok:
         return
-    for engine, modname, drv, srcs, what, n in WHITEBOX:
+    for engine, modname, drv, srcs, what, n, model_engine in WHITEBOX:
         try:
             genmod = __import__("kdv." + modname, fromlist=["x"])
         except ImportError:
             continue
         exe = run.need_cc(engine + "_drv", drv, sources=srcs(), sanitize=True)
         if exe is not None:
-            check_whitebox(run, engine, genmod, exe, n if quick else 20 * n, what)
+            check_whitebox(run, engine, genmod, exe, n if quick else 20 * n, what,
+                           model_engine=model_engine, spec_engine=engine + "-spec")
             if engine == "rcache" and not quick and not run.replay_path:
                 # callbacks that re-enter get_cache_buf (thorough tier): the model follows the code
                 # (model == implementation), the cache-less spec does not hold: finding
@@ -304,7 +316,10 @@ def check(run):
 
 WHITEBOX = [
     ("fcache", "fcachegen", "fcache_drv.c", lambda: core.lib_sources(exclude=("fcache.c",)),
-     "fcache.c (fcache_get/pread/get_chunk)", 800),
+     "fcache.c (fcache_get/pread/get_chunk, file sets)", 700, None),
     ("rcache", "rcachegen", "rcache_drv.c", lambda: core.lib_sources(which=("addrxlat",), exclude=("ctx.c",)),
-     "addrxlat ctx.c (get_cache_buf/bury_cache_buffer)", 1000),
+     "addrxlat ctx.c (get_cache_buf/bury_cache_buffer)", 800, None),
+    # the model variant of the code as it is now: fixes 82, 83, 84 (Hist/LkcdSplit.v repaired84)
+    ("lkcdsplit", "lkcdsplitgen", "lkcdsplit_drv.c", lambda: core.lib_sources(exclude=("lkcd.c",)),
+     "lkcd.c (split_pfn_block/alloc_tail_pfn_block)", 1500, "lkcdsplit-84"),
 ]
